@@ -24,6 +24,7 @@ import (
 
 	"verif/harness/gen"
 	"verif/harness/pbt"
+	"verif/harness/ref"
 	"verif/harness/sim"
 	"verif/harness/tssworld"
 )
@@ -100,7 +101,7 @@ func genTSSCase(rt *rapid.T, p tssProfile) tssCase {
 		case 3:
 			v := "good"
 			if p.corrupt {
-				v = gen.OneOf(rt, "sigv", "good", "good", "badz", "badr", "otherz", "wrongid", "wrongsigner", "othermsg", "flip", "nonassigned", "dup")
+				v = gen.OneOf(rt, "sigv", "good", "good", "badz", "badr", "otherz", "wrongid", "wrongsigner", "othermsg", "flip", "shift", "nonassigned", "dup")
 			}
 			c.Ops = append(c.Ops, tssOp{K: "sig", S: gen.Uniform(rt, "s", 8), M: gen.Uniform(rt, "m", 8), Variant: v})
 		case 4:
@@ -418,6 +419,19 @@ func (w *tssWorld) buildSig(sid uint64, mi int, variant string, inBlock map[stri
 		if o, e2 := tssworld.PartialSignature(mem, w.wallet, s2, sa); e2 == nil {
 			sig = o
 			bt.expectOK, bt.why = false, "share for another message"
+		}
+	case "shift":
+		// self-consistent forgery: (R + dG, z + d) satisfies the share equation but not the assigned nonce
+		d := big.NewInt(7)
+		rp, e1 := ref.TSSAddPoints(sig.R(), ref.TSSBaseMul(d))
+		z := new(big.Int).SetBytes(sig.S())
+		z.Add(z, d).Mod(z, n)
+		zs, e2 := tss.NewScalar(leftPad(z.Bytes(), 32))
+		if e1 == nil && e2 == nil {
+			if s2, e3 := tss.NewSignatureFromComponents(rp, zs); e3 == nil {
+				sig = s2
+				bt.expectOK, bt.why = false, "shifted nonce (R+dG, z+d)"
+			}
 		}
 	case "flip":
 		b := append([]byte{}, sig...)
@@ -1045,6 +1059,7 @@ func (w *tssWorld) finish() {
 	}
 }
 
+// refVerifyGroupSig is the independent verifier (math/big + decred group operations, written from the statement).
 func refVerifyGroupSig(pub tss.Point, msg []byte, sig tss.Signature) error {
-	return tss.VerifyGroupSigningSignature(pub, msg, sig) // replaced by the independent verifier (ref) once available
+	return ref.TSSVerifyGroupSignature(pub, msg, sig)
 }
